@@ -10,9 +10,12 @@
     RawQuery, String(), one capture / all captures, Header(n), Headers(), Cookie(n), Body(), client
     addresses), calls AddHeaderForUpstream / AddCookieForUpstream ([Emit]) and ends with [Allow] or
     [Fail kind].  [decode] (the body decoders) is arbitrary.
-      [serve_decision], [serve_proxy], [serve_envoy fixed_F1]  = error kind | matched rule + hand-over
-    of the three entry points; [fixed_F1 = false] is grpcv3.RequestContext as pinned (the view is
-    rebuilt on every Request() call), [true] the repair fixes/C13-F1.diff.
+      [serve_decision], [serve_proxy], [serve_envoy fixed_F1 fixed_F4]  = error kind | matched rule +
+    hand-over of the three entry points; [fixed_F1 = false] is grpcv3.RequestContext as pinned (the view
+    is rebuilt on every Request() call), [true] the repair fixes/C13-F1.diff; [fixed_F4 = false] is the
+    pinned URL construction of the Envoy context (escaped path in URL.Path, RawPath empty), [true] the
+    repair fixes/C13-F4.diff.  Every theorem holds for all four combinations; the guards of a repaired
+    finding vanish.
 
     [wf_lreqb L]: header names are tokens, no Host / X-Forwarded-* / Forwarded line (C09), values
     without surrounding blanks, at most one Cookie line, a path that starts with "/" and is validly
@@ -22,8 +25,8 @@ From HV Require Import Base.Prelude Base.GoUrl C09.Model C13.Model C13.Proofs.
 
 (** rule lookup reads the same path, method, scheme and host at all entry points: the same rule
     matches and the same values are captured, for every lookup function *)
-Theorem C13_same_lookup : forall L,
-  wf_lreqb L = true -> lookup_of (build_http L) = lookup_of (build_envoy (mk_envoy L)).
+Theorem C13_same_lookup : forall fixed_F4 L,
+  wf_lreqb L = true -> lookup_of (build_http L) = lookup_of (build_envoy fixed_F4 (mk_envoy L)).
 Proof. exact same_lookup. Qed.
 Print Assumptions C13_same_lookup.
 
@@ -31,21 +34,21 @@ Print Assumptions C13_same_lookup.
     lookup wrote the captures, the slash switch and the capture decoding of ruleImpl.Execute happened
     on the object the context handed out), outside the guards the HTTP contexts and the Envoy context
     answer alike — captures, headers, cookies, decoded body, URL parts *)
-Theorem C13_same_view : forall decode find fixed L rl caps q,
+Theorem C13_same_view : forall decode find fixed_F1 fixed_F4 L rl caps q,
   wf_lreqb L = true -> find (lookup_of (build_http L)) = Some (rl, caps) ->
   g_F4_decision (r_slashes rl) L = false ->
-  guard_query decode fixed (r_slashes rl) caps L q = false ->
+  guard_query decode fixed_F1 fixed_F4 (r_slashes rl) caps L q = false ->
   exists vh ve, mech_view find true (build_http L) = inr (rl, vh) /\
-                mech_view find fixed (build_envoy (mk_envoy L)) = inr (rl, ve) /\
+                mech_view find fixed_F1 (build_envoy fixed_F4 (mk_envoy L)) = inr (rl, ve) /\
                 answer (acc_http decode L) vh q = answer (acc_envoy decode (mk_envoy L)) ve q.
 Proof. exact same_view. Qed.
 Print Assumptions C13_same_view.
 
 (** same decision: for every rule set and every pipeline program the executor ends with the same
     error kind / matched rule and the same AddHeaderForUpstream / AddCookieForUpstream calls *)
-Theorem C13_same_decision : forall decode find fixed L,
-  wf_lreqb L = true -> guards_fire decode find fixed L = false ->
-  exec_http decode find L = exec_envoy decode find fixed L.
+Theorem C13_same_decision : forall decode find fixed_F1 fixed_F4 L,
+  wf_lreqb L = true -> guards_fire decode find fixed_F1 fixed_F4 L = false ->
+  exec_http decode find L = exec_envoy decode find fixed_F1 fixed_F4 L.
 Proof. exact same_execution. Qed.
 Print Assumptions C13_same_decision.
 
@@ -59,18 +62,29 @@ Proof. exact same_upstream. Qed.
 Print Assumptions C13_same_upstream_headers.
 
 (** the property: same decision, same matched rule, same hand-over at all three entry points *)
-Theorem C13_three_entry_points_agree : forall decode find fixed L,
-  wf_lreqb L = true -> guards_fire decode find fixed L = false ->
+Theorem C13_three_entry_points_agree : forall decode find fixed_F1 fixed_F4 L,
+  wf_lreqb L = true -> guards_fire decode find fixed_F1 fixed_F4 L = false ->
   serve_decision decode find L = serve_proxy decode find L /\
-  serve_decision decode find L = serve_envoy decode find fixed L.
+  serve_decision decode find L = serve_envoy decode find fixed_F1 fixed_F4 L.
 Proof. exact three_entry_points_agree. Qed.
 Print Assumptions C13_three_entry_points_agree.
 
-(** after the repair of C13-F1 no guard mentions captures any more *)
-Theorem C13_fixed_F1_captures_unguarded : forall decode s caps L n,
-  guard_query decode true s caps L (QCapture n) = false /\ guard_query decode true s caps L QCaptures = false.
-Proof. intros. split; reflexivity. Qed.
-Print Assumptions C13_fixed_F1_captures_unguarded.
+(** after the repair of C13-F1 and C13-F4 no guard mentions captures or URL parts any more, and the
+    encoded-slash check rejects at all entry points alike *)
+Theorem C13_fixed_F1_F4_unguarded : forall decode s caps L n,
+  guard_query decode true true s caps L (QCapture n) = false /\ guard_query decode true true s caps L QCaptures = false /\
+  guard_query decode true true s caps L QPath = false /\ guard_query decode true true s caps L QRawPath = false /\
+  guard_query decode true true s caps L QUrl = false.
+Proof. intros. repeat split; reflexivity. Qed.
+Print Assumptions C13_fixed_F1_F4_unguarded.
+
+Theorem C13_fixed_F4_slash_check_agrees : forall find fixed_F1 L rl caps,
+  wf_lreqb L = true -> find (lookup_of (build_http L)) = Some (rl, caps) ->
+  g_F4_decision (r_slashes rl) L = true ->
+  mech_view find true (build_http L) = inl EArgument /\
+  mech_view find fixed_F1 (build_envoy true (mk_envoy L)) = inl EArgument.
+Proof. exact slash_check_agrees. Qed.
+Print Assumptions C13_fixed_F4_slash_check_agrees.
 
 (** the decision and the proxy service share requestcontext.RequestContext: no guard at all *)
 Theorem C13_decision_proxy_same_execution : forall decode find L,
@@ -100,24 +114,24 @@ Print Assumptions C13_cookie_readers_agree.
 (** the findings: each guard is needed (a well-formed request on which it fires and the entry points differ) *)
 Theorem C13_F1_refuted :
   wf_lreqb w1_req = true /\
-  guards_fire w_decode w1_find false w1_req = true /\
-  guards_fire w_decode w1_find true w1_req = false /\
-  serve_decision w_decode w1_find w1_req <> serve_envoy w_decode w1_find false w1_req /\
-  serve_decision w_decode w1_find w1_req = serve_envoy w_decode w1_find true w1_req.
+  guards_fire w_decode w1_find false false w1_req = true /\
+  guards_fire w_decode w1_find true false w1_req = false /\
+  serve_decision w_decode w1_find w1_req <> serve_envoy w_decode w1_find false false w1_req /\
+  serve_decision w_decode w1_find w1_req = serve_envoy w_decode w1_find true false w1_req.
 Proof. exact F1_refuted. Qed.
 Print Assumptions C13_F1_refuted.
 
 Theorem C13_F1_refuted_decision :
   s_err (serve_decision w_decode w1b_find (w_req "GET" "/c1/admin" [] "")) = None /\
-  s_err (serve_envoy w_decode w1b_find false (w_req "GET" "/c1/admin" [] "")) = Some EInternal.
+  s_err (serve_envoy w_decode w1b_find false false (w_req "GET" "/c1/admin" [] "")) = Some EInternal.
 Proof. exact F1_refuted_decision. Qed.
 Print Assumptions C13_F1_refuted_decision.
 
-Theorem C13_F2_refuted : forall fixed,
-  wf_lreqb w2_req = true /\ guards_fire w_decode w2_find fixed w2_req = true /\
+Theorem C13_F2_refuted : forall fixed1 fixed4,
+  wf_lreqb w2_req = true /\ guards_fire w_decode w2_find fixed1 fixed4 w2_req = true /\
   existsb (g_F2_query w2_req) [QHeader "x-role"] = true /\
   s_err (serve_decision w_decode w2_find w2_req) = None /\
-  s_err (serve_envoy w_decode w2_find fixed w2_req) = Some EAuthz.
+  s_err (serve_envoy w_decode w2_find fixed1 fixed4 w2_req) = Some EAuthz.
 Proof. exact F2_refuted. Qed.
 Print Assumptions C13_F2_refuted.
 
@@ -130,25 +144,27 @@ Theorem C13_F3_refuted :
 Proof. exact F3_refuted. Qed.
 Print Assumptions C13_F3_refuted.
 
-Theorem C13_F4_refuted : forall fixed,
-  wf_lreqb w4_req = true /\ g_F4_decision SOff w4_req = true /\ guards_fire w_decode w4_find fixed w4_req = true /\
+Theorem C13_F4_refuted : forall fixed1,
+  wf_lreqb w4_req = true /\ g_F4_decision SOff w4_req = true /\ guards_fire w_decode w4_find fixed1 false w4_req = true /\
   s_err (serve_decision w_decode w4_find w4_req) = Some EArgument /\
-  s_err (serve_envoy w_decode w4_find fixed w4_req) = None.
+  s_err (serve_envoy w_decode w4_find fixed1 false w4_req) = None /\
+  s_err (serve_envoy w_decode w4_find fixed1 true w4_req) = Some EArgument.
 Proof. exact F4_refuted. Qed.
 Print Assumptions C13_F4_refuted.
 
-Theorem C13_F4_refuted_view : forall fixed,
+Theorem C13_F4_refuted_view : forall fixed1,
   wf_lreqb w4b_req = true /\ g_F4_query SOff w4b_req QPath = true /\
   s_handover (serve_decision w_decode w4b_find w4b_req) = Some {| ho_headers := [("X-Path", "/c4/a b")]%string; ho_cookies := [] |} /\
-  s_handover (serve_envoy w_decode w4b_find fixed w4b_req) = Some {| ho_headers := [("X-Path", "/c4/a%20b")]%string; ho_cookies := [] |}.
+  s_handover (serve_envoy w_decode w4b_find fixed1 false w4b_req) = Some {| ho_headers := [("X-Path", "/c4/a%20b")]%string; ho_cookies := [] |} /\
+  s_handover (serve_envoy w_decode w4b_find fixed1 true w4b_req) = Some {| ho_headers := [("X-Path", "/c4/a b")]%string; ho_cookies := [] |}.
 Proof. exact F4_refuted_view. Qed.
 Print Assumptions C13_F4_refuted_view.
 
-Theorem C13_F5_refuted : forall fixed,
+Theorem C13_F5_refuted : forall fixed1 fixed4,
   wf_lreqb w5_req = true /\ g_F5_query w5_req (QCookie "sid") = true /\
-  guards_fire w_decode w5_find fixed w5_req = true /\
+  guards_fire w_decode w5_find fixed1 fixed4 w5_req = true /\
   s_err (serve_decision w_decode w5_find w5_req) = None /\
-  s_err (serve_envoy w_decode w5_find fixed w5_req) = Some EAuthz.
+  s_err (serve_envoy w_decode w5_find fixed1 fixed4 w5_req) = Some EAuthz.
 Proof. exact F5_refuted. Qed.
 Print Assumptions C13_F5_refuted.
 
@@ -160,23 +176,23 @@ Theorem C13_F5_refuted_handover :
 Proof. exact F5_refuted_handover. Qed.
 Print Assumptions C13_F5_refuted_handover.
 
-Theorem C13_F6_refuted : forall fixed,
-  wf_lreqb w6_req = true /\ g_F6_query (QHeader "Host") = true /\ guards_fire w_decode w6_find fixed w6_req = true /\
+Theorem C13_F6_refuted : forall fixed1 fixed4,
+  wf_lreqb w6_req = true /\ g_F6_query (QHeader "Host") = true /\ guards_fire w_decode w6_find fixed1 fixed4 w6_req = true /\
   s_err (serve_decision w_decode w6_find w6_req) = None /\
-  s_err (serve_envoy w_decode w6_find fixed w6_req) = Some EAuthz.
+  s_err (serve_envoy w_decode w6_find fixed1 fixed4 w6_req) = Some EAuthz.
 Proof. exact F6_refuted. Qed.
 Print Assumptions C13_F6_refuted.
 
-Theorem C13_F7_refuted : forall fixed,
-  wf_lreqb w7_req = true /\ g_F7_query w_decode w7_req QBody = true /\ guards_fire w_decode w7_find fixed w7_req = true /\
-  serve_decision w_decode w7_find w7_req <> serve_envoy w_decode w7_find fixed w7_req.
+Theorem C13_F7_refuted : forall fixed1 fixed4,
+  wf_lreqb w7_req = true /\ g_F7_query w_decode w7_req QBody = true /\ guards_fire w_decode w7_find fixed1 fixed4 w7_req = true /\
+  serve_decision w_decode w7_find w7_req <> serve_envoy w_decode w7_find fixed1 fixed4 w7_req.
 Proof. exact F7_refuted. Qed.
 Print Assumptions C13_F7_refuted.
 
 (** the hypotheses of the main theorem are satisfiable by a non-trivial request and pipeline *)
 Theorem C13_nonvacuous :
-  wf_lreqb nv_req = true /\ guards_fire w_decode nv_find true nv_req = false /\
-  serve_envoy w_decode nv_find true nv_req =
+  wf_lreqb nv_req = true /\ guards_fire w_decode nv_find true true nv_req = false /\ guards_fire w_decode nv_find true false nv_req = false /\
+  serve_envoy w_decode nv_find true true nv_req =
     {| s_err := None; s_rule := "files";
        s_handover := Some {| ho_headers := [("X-User", "report.pdf"); ("X-Path", "/files/report.pdf");
                                             ("X-Url", "https://a.example.com:8443/files/report.pdf?v=2")]%string;
@@ -185,8 +201,8 @@ Proof. exact nonvacuous. Qed.
 Print Assumptions C13_nonvacuous.
 
 Theorem C13_nonvacuous_pinned :
-  guards_fire w_decode nv2_find false nv_req = false /\
-  s_handover (serve_envoy w_decode nv2_find false nv_req) =
+  guards_fire w_decode nv2_find false false nv_req = false /\
+  s_handover (serve_envoy w_decode nv2_find false false nv_req) =
     Some {| ho_headers := [("X-Q", "v=2")]%string; ho_cookies := [("c", "application/json")]%string |}.
 Proof. exact nonvacuous_pinned. Qed.
 Print Assumptions C13_nonvacuous_pinned.
